@@ -46,11 +46,12 @@ var c13Names = []string{"qxa", "qxb"}
 // operations
 
 type c13Op struct {
-	kind string // P I U X E Z V W S F M K O
-	a, b int    // P: a=pkg; I: a=pkg; U/X: a=obj b=pkg; E/Z: a=pkg b=name; V/S/F: a=name b=tag; W/M/K: a=name
+	kind string // P I U X E Z V W S F M K G O
+	a, b int    // P: a=pkg; I: a=pkg; U/X: a=obj b=pkg; E/Z: a=pkg b=name; V/S/F/G: a=name b=tag; W/M/K: a=name
 	us   []int  // P: uses
 	ex   []int  // P: exports
 	one  bool   // U/X/E/Z: written in the one-argument form (acts on the current package)
+	exp  bool   // G: exported (FuncDoc.NoExport = false)
 }
 
 func c13Ints(xs []int) string {
@@ -69,6 +70,12 @@ func (o c13Op) token() string {
 		return fmt.Sprintf("%s%d", o.kind, o.a)
 	case "O":
 		return "O"
+	case "G":
+		e := 0
+		if o.exp {
+			e = 1
+		}
+		return fmt.Sprintf("G%d:%d:%d", o.a, o.b, e)
 	case "U", "X", "E", "Z":
 		if o.one {
 			return fmt.Sprintf("%s%d:%d:1", o.kind, o.a, o.b)
@@ -123,6 +130,11 @@ func c13ParseOp(tok string) (o c13Op, ok bool) {
 			return o, false
 		}
 		o.a = num(parts[0])
+	case "G":
+		if len(parts) != 3 {
+			return o, false
+		}
+		o.a, o.b, o.exp = num(parts[0]), num(parts[1]), parts[2] == "1"
 	case "U", "X", "E", "Z":
 		if len(parts) == 3 && parts[2] == "1" {
 			o.one = true
@@ -194,6 +206,8 @@ func (o c13Op) lisp(suffix string) string {
 		return fmt.Sprintf("(makunbound '%s)", c13Names[o.a])
 	case "K":
 		return fmt.Sprintf("(fmakunbound '%s)", c13Names[o.a])
+	case "G":
+		return fmt.Sprintf("#go:CurrentPackage.Define(%s => (+ a %d), NoExport=%v)", c13Names[o.a], o.b, !o.exp)
 	}
 	return ";; observe"
 }
@@ -380,7 +394,12 @@ func c13RunImpl(ops []c13Op, suffix string) (reply string) {
 			blocks = append(blocks, c13Observe(suffix, defined, cur))
 			continue
 		}
-		out := c13Eval(o.lisp(suffix))
+		var out lib.Outcome
+		if o.kind == "G" {
+			out = c13GoDefine(o)
+		} else {
+			out = c13Eval(o.lisp(suffix))
+		}
 		if !out.Ok {
 			cl := out.Class
 			if out.GoFault {
@@ -396,6 +415,37 @@ func c13RunImpl(ops []c13Op, suffix string) (reply string) {
 		}
 	}
 	return "ok " + strings.Join(blocks, "|")
+}
+
+// c13GoFunc is a function defined through the Go extension interface (Package.Define).
+type c13GoFunc struct {
+	slip.Function
+	tag int64
+}
+
+// Call returns the first argument plus the tag (like the defun bodies of the harness).
+func (f *c13GoFunc) Call(s *slip.Scope, args slip.List, depth int) slip.Object {
+	n := slip.Fixnum(0)
+	if 0 < len(args) {
+		if x, ok := args[0].(slip.Fixnum); ok {
+			n = x
+		}
+	}
+	return n + slip.Fixnum(f.tag)
+}
+
+func c13GoDefine(o c13Op) lib.Outcome {
+	name, tag := c13Names[o.a], int64(o.b)
+	return lib.Protect(func() slip.Object {
+		slip.CurrentPackage.Define(
+			func(args slip.List) slip.Object {
+				f := c13GoFunc{Function: slip.Function{Name: name, Args: args}, tag: tag}
+				f.Self = &f
+				return &f
+			},
+			&slip.FuncDoc{Name: name, Args: []*slip.DocArg{{Name: "a", Type: "fixnum"}}, Return: "fixnum", NoExport: !o.exp})
+		return nil
+	})
 }
 
 // c13Worker: `vh C13-worker` reads "id suffix token…" lines, writes "id reply" lines.
@@ -692,6 +742,8 @@ func c13OpName(o c13Op) string {
 		return "makunbound"
 	case "K":
 		return "fmakunbound"
+	case "G":
+		return "go-define"
 	}
 	return o.kind
 }
@@ -818,7 +870,7 @@ func (g *c13Gen) ok(o c13Op) bool {
 		if o.one && o.a != g.cur {
 			return false
 		}
-	case "V", "W", "S", "F", "M", "K":
+	case "V", "W", "S", "F", "M", "K", "G":
 		if g.cur < 0 {
 			return false
 		}
@@ -860,7 +912,8 @@ func c13Alphabet(g *c13Gen) []c13Op {
 	}
 	for n := 0; n < c13NNm; n++ {
 		out = append(out, c13Op{kind: "V", a: n, b: 900 + n}, c13Op{kind: "W", a: n}, c13Op{kind: "S", a: n, b: 910 + n},
-			c13Op{kind: "F", a: n, b: 920 + n}, c13Op{kind: "M", a: n}, c13Op{kind: "K", a: n})
+			c13Op{kind: "F", a: n, b: 920 + n}, c13Op{kind: "M", a: n}, c13Op{kind: "K", a: n},
+			c13Op{kind: "G", a: n, b: 930 + n, exp: true}, c13Op{kind: "G", a: n, b: 940 + n, exp: false})
 	}
 	return out
 }
@@ -878,6 +931,7 @@ var c13Prefixes = []c13Prefix{
 	{"used-owner-current", "P0:: P1:: P2:: I1 V0:1 F0:2 V1:3 F1:4 E1:0 U0:1"},
 	{"exported-later", "P0:: P1:: P2:: U0:1 I1 V0:1 F0:2 E1:0 I0"},
 	{"shadow", "P0:: P1:: P2:: I1 V0:1 F0:2 E1:0 I0 V0:3 F0:4 U0:1"},
+	{"shadow-owner-current", "P0:: P1:: P2:: I1 V0:1 F0:2 E1:0 I0 V0:3 F0:4 U0:1 I1"},
 	{"shadow-exported-later", "P0:: P1:: P2:: U0:1 I0 V0:3 F0:4 I1 V0:1 F0:2 E1:0 I0"},
 	{"export-first", "P0:: P1::0.1 P2:: U0:1 I1"},
 	{"export-first-used", "P0:: P1::0.1 P2:: U0:1 I1 V0:1 F1:2 I0"},
@@ -939,9 +993,11 @@ func c13RandomOp(r *lib.Rng, g *c13Gen) c13Op {
 			o = c13Op{kind: "W", a: nm()}
 		case x < 71:
 			o = c13Op{kind: "S", a: nm()}
-		case x < 82:
+		case x < 80:
 			o = c13Op{kind: "F", a: nm()}
-		case x < 88:
+		case x < 84:
+			o = c13Op{kind: "G", a: nm(), exp: r.Chance(60)}
+		case x < 89:
 			o = c13Op{kind: "M", a: nm()}
 		case x < 94:
 			o = c13Op{kind: "K", a: nm()}
@@ -970,7 +1026,7 @@ func c13RandomOp(r *lib.Rng, g *c13Gen) c13Op {
 			continue
 		}
 		switch o.kind {
-		case "V", "S", "F":
+		case "V", "S", "F", "G":
 			o.b = g.nextTag()
 		}
 		return o
@@ -1006,7 +1062,7 @@ func c13Random(r *lib.Rng, n int, avoid bool) []c13History {
 
 // c13Exhaustive enumerates every history up to maxLen over a reduced alphabet: two packages
 // (p0 may use p1), one name, operations on the current package.
-func c13Exhaustive(maxLen int, three bool) []c13History {
+func c13Exhaustive(maxLen int, three bool, avoid bool) []c13History {
 	var hs []c13History
 	type sym struct{ kind string; a, b int }
 	alpha := []sym{{"I", 0, 0}, {"I", 1, 0}, {"U", 0, 1}, {"X", 0, 1}, {"Ec", 0, 0}, {"Zc", 0, 0}, {"V", 0, 0}, {"S", 0, 0}, {"F", 0, 0}, {"M", 0, 0}, {"K", 0, 0}}
@@ -1061,6 +1117,7 @@ func c13Exhaustive(maxLen int, three bool) []c13History {
 	for _, o := range pre {
 		g.apply(o)
 	}
+	g.avoidTransitive = avoid
 	rec(g, 0, true)
 	// keep only maximal histories: every proper prefix is observed inside its extensions
 	var out []c13History
@@ -1107,7 +1164,32 @@ func c13Shrink(c *lib.Ctx, h c13History, sig string) c13History {
 		return d != nil && c13Signature(h2, d) == sig
 	}
 	ops := h.ops
-	budget := 60
+	budget := 80
+	// 1. nothing after the first diverging observation matters
+	if d, _, _ := c13Check(h, c.Model); d != nil && d.block >= 0 {
+		seen := -1
+		for i, o := range ops {
+			if o.kind == "O" {
+				seen++
+				if seen == d.block {
+					ops = append([]c13Op{}, ops[:i+1]...)
+					break
+				}
+			}
+		}
+	}
+	// 2. usually the intermediate observations do not matter either
+	{
+		var cand []c13Op
+		for i, o := range ops {
+			if o.kind != "O" || i == len(ops)-1 {
+				cand = append(cand, o)
+			}
+		}
+		if len(cand) < len(ops) && try(cand) {
+			ops = cand
+		}
+	}
 	for changed := true; changed && budget > 0; {
 		changed = false
 		for i := len(ops) - 1; i >= 0 && budget > 0; i-- {
@@ -1181,8 +1263,8 @@ func runC13(c *lib.Ctx) {
 	hs = append(hs, random...)
 	nExh := 0
 	if c.Thorough() {
-		e1 := c13Exhaustive(5, false)
-		e2 := c13Exhaustive(4, true)
+		e1 := c13Exhaustive(5, false, avoid)
+		e2 := c13Exhaustive(4, true, avoid)
 		nExh = len(e1) + len(e2)
 		hs = append(hs, e1...)
 		hs = append(hs, e2...)
